@@ -25,10 +25,19 @@ const flushNonce = uint64(0xF1F1F1F1F1F1F1F1)
 // observation (never silently).
 const waitLimit = 8 * time.Second
 
+// leakLimit is how long goroutines of a disconnected peer get to finish before
+// they are reported as leaked.
+const leakLimit = 3 * time.Second
+
 // ---------------------------------------------------------------- census
 
-// peerGoroutines counts goroutines that have a frame of btcd's peer package.
-func peerGoroutines() int {
+// leaked holds the ids of goroutines already reported as leaked by an earlier
+// case, so that one leak is reported once and does not poison later cases.
+var leaked = map[string]bool{}
+
+// peerGoroutines returns the ids of goroutines that have a frame of btcd's
+// peer package (not counting those already reported as leaked).
+func peerGoroutines() []string {
 	buf := make([]byte, 1<<18)
 	for {
 		n := runtime.Stack(buf, true)
@@ -38,24 +47,38 @@ func peerGoroutines() int {
 		}
 		buf = make([]byte, 2*len(buf))
 	}
-	cnt := 0
+	var ids []string
 	for _, g := range bytes.Split(buf, []byte("\n\n")) {
-		if bytes.Contains(g, []byte("github.com/btcsuite/btcd/peer.")) {
-			cnt++
+		if !bytes.Contains(g, []byte("github.com/btcsuite/btcd/peer.")) {
+			continue
+		}
+		// "goroutine 123 [chan send]:"
+		f := bytes.Fields(g)
+		if len(f) < 2 {
+			continue
+		}
+		id := string(f[1])
+		if !leaked[id] {
+			ids = append(ids, id)
 		}
 	}
-	return cnt
+	return ids
 }
 
-// waitCensusClean polls until no peer goroutine is left; false on timeout.
+// waitCensusClean polls until no peer goroutine is left; false on timeout
+// (the stragglers are then remembered as leaked).
 func waitCensusClean() bool {
-	deadline := time.Now().Add(waitLimit)
+	deadline := time.Now().Add(leakLimit)
 	d := 20 * time.Microsecond
 	for {
-		if peerGoroutines() == 0 {
+		ids := peerGoroutines()
+		if len(ids) == 0 {
 			return true
 		}
 		if time.Now().After(deadline) {
+			for _, id := range ids {
+				leaked[id] = true
+			}
 			return false
 		}
 		time.Sleep(d)
@@ -379,6 +402,7 @@ func runHS(c hsCfg, toks []string) string {
 	p.AssociateConnection(pe)
 
 	note := ""
+	flushes := 0
 	send := func(b []byte) { re.Write(b) }
 	for _, t := range toks {
 		f := strings.Split(t, ":")
@@ -420,9 +444,17 @@ func runHS(c hsCfg, toks []string) string {
 			send(encMsg(wire.NewMsgPing(n), btcnet))
 		case "F":
 			send(encMsg(wire.NewMsgPing(flushNonce), btcnet))
+			flushes++
 			want := fmt.Sprintf("pong(%d)", flushNonce)
+			need := flushes
 			r := rd.waitFor(func(ms []wmsg) bool {
-				return len(ms) > 0 && renderW(ms[len(ms)-1], btcnet) == want
+				n := 0
+				for _, m := range ms {
+					if m.cmd == "pong" && renderW(m, btcnet) == want {
+						n++
+					}
+				}
+				return n >= need
 			})
 			if r == "timeout" {
 				note = " note=flush-timeout"
